@@ -45,6 +45,8 @@ pub struct PipeInner {
     pub written: Vec<u8>,
     pub n_delivered: u64,
     pub n_read: u64,
+    /// Bytes in flight that a simulated fault threw away.
+    pub n_dropped: u64,
     pub reads_after_eof: u32,
     /// Number of poll_read calls / bytes visible at each (for signatures).
     pub read_polls: u64,
@@ -72,6 +74,7 @@ pub fn new_pipe(name: &'static str, direct: bool, cap: usize) -> Pipe {
         written: Vec::new(),
         n_delivered: 0,
         n_read: 0,
+        n_dropped: 0,
         reads_after_eof: 0,
         read_polls: 0,
     }))
@@ -157,7 +160,7 @@ impl PipeInner {
     /// Stub self-check: conservation of bytes.
     pub fn self_check(&self) {
         let total = self.written.len() as u64;
-        let accounted = self.n_read + self.inbox.len() as u64 + self.outbox.len() as u64;
+        let accounted = self.n_read + self.n_dropped + self.inbox.len() as u64 + self.outbox.len() as u64;
         if total != accounted {
             harness_fail(format!(
                 "pipe {}: conservation broken: written {} != read {} + inbox {} + outbox {}",
